@@ -220,7 +220,17 @@ func C17(e *core.Env) int {
 			npkg := 2 + si%2
 			base := c17Scenario{name: fmt.Sprintf("t%03d", si), npkg: npkg}
 			for k := 0; k < 3; k++ {
-				base.convs = append(base.convs, c17Conv{pkg: k % npkg, name: fmt.Sprintf("C%c", 'A'+k), out: outs[r2.Intn(len(outs))]})
+				// output kinds rotate so that every kind (incl. three new directory levels) occurs in every run
+				_ = r2
+				base.convs = append(base.convs, c17Conv{pkg: k % npkg, name: fmt.Sprintf("C%c", 'A'+k), out: []string{"deep", "own", "shared", "same", ""}[(si+k)%5]})
+			}
+			{
+				// the fault-free run of the scenario
+				sc := base
+				sc.name = fmt.Sprintf("t%03dfree", si)
+				sc.convs = append([]c17Conv{}, base.convs...)
+				sc.prior = priors[si%len(priors)]
+				runs = append(runs, run{scen: sc, subset: nil, label: ""})
 			}
 			for xi, st := range stages {
 				for _, k := range []int{0, 1} {
